@@ -128,7 +128,7 @@ Print Assumptions C19_next_plain.
 Theorem C19_stepout_clean : forall (pcT spT opT retT : Z -> Z) (fuel : nat) (c i j : Z),
   returns_to_caller pcT opT ->
   frame_call opT c i -> returns_at opT c j -> i <= j ->
-  retT i = pcT c + 3 ->
+  Known_stepout_stack_dirty pcT retT c i = false ->
   spT i <= 253 ->
   (forall k, i <= k < j -> pcT k <> pcT c + 3) ->
   (forall k, i <= k < j -> finT opT k = false) ->
@@ -142,7 +142,7 @@ Print Assumptions C19_stepout_clean.
    1 + A + 256 * (low byte of the return address) = $0608 for the return address and runs to the test's brk (index 8). *)
 Theorem C19_stepout_dirty_refuted :
   frame_call w_op 2 4 /\ returns_at w_op 2 7 /\ w_pc 7 = w_pc 2 + 3 /\
-  w_ret 4 <> w_pc 2 + 3 /\
+  Known_stepout_stack_dirty w_pc w_ret 2 4 = true /\
   step_out w_pc w_sp w_op w_ret 100 4 = Some 8.
 Proof. exact stepout_dirty_refuted. Qed.
 Print Assumptions C19_stepout_dirty_refuted.
